@@ -202,6 +202,26 @@ def two_level_binding_pair(rng):
     return flat, nested, {"inner_bind": True, "S": [n["name"] for n in inner_nodes], "two_level_binding": True}
 
 
+def sibling_binding_pair(rng):
+    """Flat: scale(x,k), shift(y,k), total(...) with bind(k).  Nested: scale and shift each in their OWN wrapper and
+    the binding pushed down into the inner graph of one of them only (1-2 levels deep): `k` is still one bound,
+    optional input of the composed graph and reaches both wrappers, as it reaches both nodes of the flat graph."""
+    scale = {"k": "fn", "name": "scale", "fid": "scale", "params": [{"n": "x"}, {"n": "k"}], "outs": ["scaled"]}
+    shift = {"k": "fn", "name": "shift", "fid": "shift", "params": [{"n": "y"}, {"n": "k"}], "outs": ["shifted"]}
+    total = {"k": "fn", "name": "total", "fid": "total", "params": [{"n": "scaled"}, {"n": "shifted"}], "outs": ["total"]}
+    flat = {"name": "g", "nodes": copy.deepcopy([scale, shift, total]), "bind": {"k": "bound:k"}}
+    left = {"k": "sub", "name": "left", "prog": {"name": "left", "nodes": [copy.deepcopy(scale)], "bind": {"k": "bound:k"}}}
+    for level in range(rng.randint(0, 2)):
+        left = {"k": "sub", "name": f"left{level}", "prog": {"name": f"left{level}", "nodes": [left], "bind": {}}}
+    right = {"k": "sub", "name": "right", "prog": {"name": "right", "nodes": [copy.deepcopy(shift)], "bind": {}}}
+    if rng.random() < 0.3:
+        right = {"k": "sub", "name": "right1", "prog": {"name": "right1", "nodes": [right], "bind": {}}}
+    nodes = [left, right, copy.deepcopy(total)]
+    rng.shuffle(nodes)
+    nested = {"name": "g", "nodes": nodes, "bind": {}}
+    return flat, nested, {"inner_bind": True, "S": ["scale", "shift"], "sibling_binding": True}
+
+
 def mutable_default_pair(rng):
     """Flat DAG with 1-2 nodes that mutate a default-valued mutable argument in place, and the same program
     with those nodes wrapped (depth 1-2, optionally with a renamed wrapper input; sometimes two wrappers around
@@ -285,6 +305,12 @@ def run(ctx):
             ok = compare_pair(ctx, A, B, info, "two-level-binding")
             ctx.obs["two_level_binding_pairs"] += 1
             ctx.case({"s": gen.shape_of(B), "bind2": True}, ok)
+            continue
+        if i % 12 == 1:
+            A, B, info = sibling_binding_pair(rng)
+            ok = compare_pair(ctx, A, B, info, "sibling-binding")
+            ctx.obs["sibling_binding_pairs"] += 1
+            ctx.case({"s": gen.shape_of(B), "sibbind": True}, ok)
             continue
         if i % 6 == 5:
             A, B, src = mutable_default_pair(rng)
